@@ -1,1 +1,3 @@
+pub mod c06;
+pub mod c17;
 pub mod c20;
